@@ -131,6 +131,29 @@ class Check(core.PropertyCheck):
             ops = [["get", ("h%d" % i, "example", "com"), [("h%d" % i, "example", "com")]] for i in range(0, 130)]
             ops += [["get", ("h%d" % i, "example", "com"), [("h%d" % i, "example", "com")]] for i in (129, 128, 5, 129)]
             yield core.Scenario({"cap": None, "ops": ops}, source="random")
+        # name shapes for which certificate generation takes another branch: names of 64+ characters (the common name
+        # is then left out of the certificate), names without SANs, IP SANs, many SANs -- each with capacity overflow
+        long_label = "l" * 40
+        def shaped(i, shape):
+            if shape == "long":
+                n = ("x%d" % i, long_label, long_label, "example", "com")
+                return ["get", n, [n]]
+            if shape == "nosan":
+                return ["get", ("n%d" % i, "example", "com"), []]
+            if shape == "ip":
+                return ["get", (), [("ip:10.0.%d.%d" % (i // 250, i % 250 + 1),)]]
+            if shape == "cn_ip":
+                n = ("10", "1", "%d" % (i // 250), "%d" % (i % 250 + 1))
+                return ["get", n, [("ip:" + ".".join(n),)]]
+            n = ("m%d" % i, "example", "com")
+            return ["get", n, [n, ("alt%d" % i, "example", "org"), ("ip:10.9.%d.%d" % (i // 250, i % 250 + 1),)]]
+        for shape in ("long", "nosan", "ip", "cn_ip", "many"):
+            for cap in ((2, 3) if ctx.quick else (1, 2, 3, 5, 8)):
+                ops = [shaped(i, shape) for i in range(cap + 4)]
+                ops += [shaped(i, shape) for i in (cap + 3, cap + 2, 0, cap + 3)]
+                yield core.Scenario({"cap": cap, "ops": ops}, source="random")
+            mixed = [shaped(i, rng.choice(["long", "nosan", "ip", "cn_ip", "many", "many"])) for i in range(9)]
+            yield core.Scenario({"cap": 3, "ops": mixed + mixed[-2:]}, source="random")
 
     def execute(self, sc):
         from mitmproxy import certs
